@@ -7,7 +7,7 @@ from collections import Counter
 import framework as F
 
 ID = "C07"
-GEN = ["Infra", "Trace", "Interpolation"]
+GEN = ["Infra", "Trace", "Interpolation", "Math"]
 LEVEL = "proof"
 TECHNIQUE = ("Coq proof: closed forms of the generated one-step trace kernels by induction over the observation list; "
              "refinement of the FoldReducer state machine (over the C01 ring-buffer model) to a newest-first list of "
